@@ -54,7 +54,10 @@ D3_FIELDS = [("varint", "n"), ("string", "s"), ("uri", "u"), ("record", "sub"), 
 # implementation-level only (values the Coq model has no literal for)
 D4_FIELDS = [("net.ipaddress", "ip"), ("string", "s"), ("record", "sub")]
 I4_FIELDS = [("net.ipaddress", "addr"), ("uri", "link")]
-DESCS = {"D1": ("test/c07", D1_FIELDS), "D2": ("test/c07b", D2_FIELDS), "D3": ("test/c07n", D3_FIELDS),
+# bytes values: implementation-level only (the helpers must leave them alone: they are not text)
+D5_FIELDS = [("bytes", "data"), ("bytes", "d2"), ("string", "s"), ("varint", "n")]
+BYTES_VALUES = [b"MZ-Header", b"mz-header", b"ABC", b"abc", b"\x00\xffPK", b""]
+DESCS = {"D5": ("test/c07bytes", D5_FIELDS), "D1": ("test/c07", D1_FIELDS), "D2": ("test/c07b", D2_FIELDS), "D3": ("test/c07n", D3_FIELDS),
          "D4": ("test/c07ip", D4_FIELDS), "I1": ("test/inner", I1_FIELDS), "I2": ("test/inner2", I2_FIELDS),
          "I4": ("test/innerip", I4_FIELDS)}
 URIS_TOP = ["http://top.net/x/y.z", "https://example.com/a/b.txt", "ftp://files.org/pub/readme"]
@@ -137,6 +140,8 @@ FIXED_RECORDS = [
                 a=[2])),
     ("D3", dict(n=3, s="a", u=None, sub=None, subs=[("I1", dict(link="https://cdn.net/img/logo.png", txt="Xy", num=100))], a=[])),
     ("D4", dict(ip="10.0.0.1", s="a", sub=("I4", dict(addr="192.168.1.7", link="http://example.com/dl/evil.bin")))),
+    ("D5", dict(data=b"MZ-Header", d2=b"abc", s="MZ-Header", n=1)),
+    ("D5", dict(data=b"ABC", d2=None, s="abc", n=2)),
 ]
 
 
@@ -149,6 +154,8 @@ def make_records(rnd, count):
             specs.append(("D3", random_nested_values(rnd)))
         elif i % 6 == 5 and i % 12 == 5:
             specs.append(("D4", random_ip_values(rnd)))
+        elif i % 6 == 5:
+            specs.append(("D5", dict(data=rnd.choice(BYTES_VALUES), d2=rnd.choice(BYTES_VALUES + [None]), s=rnd.choice(STRS[:6]), n=rnd.choice(SMALL))))
         else:
             specs.append(("D1", random_values(rnd, D1_FIELDS)))
     return [build_record(which, vals) for which, vals in specs[:max(count, len(FIXED_RECORDS))]]
@@ -159,6 +166,8 @@ def build_obj(which, vals):
     kw = {}
     for ty, nm in DESCS[which][1]:
         v = vals[nm]
+        if ty == "bytes" and isinstance(v, str):       # from a replay file: repr() of the bytes
+            v = ast.literal_eval(v)
         if ty == "record" and v is not None:
             v = build_obj(v[0], v[1])
         elif ty == "record[]" and v is not None:
@@ -839,6 +848,9 @@ class Gen:
 
     def leaf(self, want):
         r = self.rnd
+        if r.random() < 0.012:
+            # an attribute (chain) of a field the record lacks: missing as well, in both engines
+            return r.choice(["r.zz.yy", "r.zz.a.b", "r.zz.real", "r.zz.yy.zz"])
         if want == "int":
             return self.int_leaf()
         if want == "str":
@@ -1103,6 +1115,68 @@ IP_TEMPLATES = [
     "Type.net.ipaddress.version == 6", "any(x.addr == r.ip for x in [r.sub])", "net.ipaddress('10.0.0.1') in net.ipnetwork('10.0.0.0/8')",
     "r.ip in net.ipnetwork('10.0.0.0/8')", "Type.net.ipaddress.is_private == True", "r.sub.link.filename == 'evil.bin'",
 ]
+def bytes_exprs(rnd, count):
+    """helper functions over bytes values (fields and literals with ASCII letters): bytes are not text, lower/upper and
+    the nocase folding of field_equals / field_contains must leave them alone"""
+    lits = [repr(b) for b in BYTES_VALUES[:5]]
+    ops = ["r.data", "r.d2", "r.data", "r.s"] + lits
+    fixed = ["lower(r.data) == b'MZ-Header'", "field_equals(r, ['data'], [b'mz-header'])", "field_equals(r, ['data'], [b'MZ-Header'])",
+             "field_contains(r, ['data'], [b'mz'])", "field_contains(r, ['data'], [b'MZ'])", "Type.bytes == b'MZ-Header'",
+             "b'MZ' in Type.bytes", "upper(r.d2) == b'abc'", "(r.data + b'x') == b'MZ-Headerx'"]
+    out = list(fixed)
+    for _ in range(count):
+        c = rnd.random()
+        if c < 0.45:
+            f1, f2 = rnd.choice(["lower", "upper", ""]), rnd.choice(["lower", "upper", "", ""])
+            a, b = rnd.choice(ops), rnd.choice(ops)
+            out.append("(%s %s %s)" % ("%s(%s)" % (f1, a) if f1 else a, rnd.choice(["==", "!=", "in", "=="]),
+                                       ("%s(%s)" % (f2, b) if f2 else b)))
+        elif c < 0.8:
+            h = rnd.choice(["field_equals", "field_contains"])
+            flds = "[%s]" % ", ".join(repr(rnd.choice(["data", "d2", "s", "zz"])) for _ in range(rnd.choice([1, 2])))
+            strs = "[%s]" % ", ".join(rnd.choice(lits + ["'abc'", "lower(%s)" % rnd.choice(lits), "r.d2"]) for _ in range(rnd.choice([1, 2])))
+            out.append("%s(r, %s, %s%s)" % (h, flds, strs, rnd.choice(["", "", ", nocase=False", ", nocase=True"])))
+        else:
+            out.append("(%s %s Type.bytes)" % (rnd.choice(lits + ["lower(%s)" % rnd.choice(lits)]), rnd.choice(["==", "!=", "in"])))
+    return out
+
+
+# record layouts that share the descriptor NAME and the field NAMES but not the field TYPES, met one after the other in
+# one process (a stream of mixed producers): a typed matcher must go by the types the record at hand declares
+LAYOUT_PAIRS = [
+    ("test/c07layout1", [("uint32", "port"), ("string", "host")], dict(port=8080, host="h"),
+     [("string", "port"), ("string", "host")], dict(port="8080", host="h")),
+    ("test/c07layout2", [("string", "port"), ("varint", "n")], dict(port="8080", n=5),
+     [("uint32", "port"), ("varint", "n")], dict(port=8080, n=5)),
+    ("test/c07layout3", [("varint", "a"), ("string", "b")], dict(a=7, b="x7"),
+     [("string", "a"), ("varint", "b")], dict(a="x7", b=7)),
+]
+LAYOUT_EXPRS = ["Type.string == '8080'", "'808' in Type.string", "Type.uint32 == 8080", "Type.uint32 > 1", "Type.string == 'h'",
+                "Type.varint == 5", "Type.varint == 7", "Type.string == 'x7'", "'x' in Type.string", "Type.varint > 6",
+                "any(f == 'port' for f in Type.string)", "any(f == 'a' for f in Type.varint)", "field_equals(r, Type.string, ['8080', 'x7'])"]
+
+
+def layout_check(ctx, chk):
+    from flow.record import RecordDescriptor
+    n = 0
+    for name, fa, va, fb, vb in LAYOUT_PAIRS:
+        for text in LAYOUT_EXPRS:
+            tree = ast.parse(text, mode="eval")
+            for fields, vals in ((fa, va), (fb, vb), (fa, va)):
+                rec = RecordDescriptor(name, fields)(_generated=TS, **vals)
+                r = dict(which="layout:%s:%s" % (name, ",".join("%s %s" % f for f in fields)), vals=vals, fields=fields, rec=rec, coq=None)
+                outs = run_pair(text, tree, r, chk.sel_cache)
+                if outs is None:
+                    continue
+                n += 1
+                ctx.count_case(("layout", name, tuple(fields), text), nontrivial=True)
+                chk.property_check(text, tree, r, outs)
+                if chk.reported:
+                    return n
+    ctx.notes.append("descriptor layouts sharing name and field names but not types, met in sequence: %d evaluations" % n)
+    return n
+
+
 OUTSIDE_CONTEXTS = ["{U}", "({U}) == 1", "True or ({U}) == 1", "False and ({U}) == 1", "not ({U})", "[{U}] == []", "lower({U}) == 1",
                     "({U}) + 1 == 2", "any(({U}) == 1 for x in [1])", "1 < 2 < ({U})", "field_equals(r, ['s'], [{U}])"]
 
@@ -1263,6 +1337,7 @@ def differential(ctx, kf, budget_pairs, maxdepth, rnd, with_coq, exhaustive=Fals
     g1 = Gen(rnd, D1_FIELDS)
     gw = Gen(rnd, D1_FIELDS, wide=True)
     g3 = Gen(rnd, D3_FIELDS, nested=True)
+    d5_idx = [i for i, r in enumerate(recs) if r["which"] == "D5"]
 
     def texts():
         if outside_first:
@@ -1273,6 +1348,8 @@ def differential(ctx, kf, budget_pairs, maxdepth, rnd, with_coq, exhaustive=Fals
                 yield "exh", t
         for t in IP_TEMPLATES:
             yield "ip", t
+        for t in bytes_exprs(rnd, 150 if budget_pairs else 60):
+            yield "bytes", t
         for _ in range(budget_pairs):
             depth = rnd.choice(range(1, maxdepth + 1))
             c = rnd.random()
@@ -1313,6 +1390,8 @@ def differential(ctx, kf, budget_pairs, maxdepth, rnd, with_coq, exhaustive=Fals
             picks = [0, 2]
         elif kind == "ip":
             picks = d4_idx[:3]
+        elif kind == "bytes":
+            picks = d5_idx[:3]
         elif kind == "nested":
             picks = [rnd.choice(d3_idx), rnd.choice(d3_idx[:2])]
             if rnd.random() < 0.2:
@@ -1445,6 +1524,9 @@ def search(ctx, reason):
         deep_paths_check(ctx)
         if ctx.violations:
             return True
+        layout_check(ctx, Checker(ctx, kf))
+        if ctx.violations:
+            return True
         # the fixed streams (outside-the-language constructs, typed matchers on nested records) are short: they are tried
         # when the generated stream found nothing, so that a disagreement on an ordinary expression is preferred as witness
         chk, _, _, _ = differential(ctx, kf, 5000 if ctx.tier == "quick" else 40000, 3, rnd, with_coq=False,
@@ -1499,6 +1581,9 @@ def run(ctx):
     deep_paths_check(ctx)
     if ctx.violations:
         return
+    layout_check(ctx, chk)
+    if ctx.violations:
+        return
     if not quick and len(cases) > 60000:
         keep = sorted(rnd.sample(range(len(cases)), 60000))
         cases = [cases[i] for i in keep]
@@ -1533,9 +1618,30 @@ def run(ctx):
 def replay(obj):
     kind = obj.get("kind")
     if kind in ("agreement", "outside"):
-        r = build_record(obj["record"]["which"], obj["record"]["vals"])
         text = obj["expr"]
         tree = ast.parse(text, mode="eval")
+        which = obj["record"]["which"]
+        if which.startswith("layout:"):
+            # the same sequence of layouts as in the check; every occurrence of the layout in question is judged
+            from flow.record import RecordDescriptor
+            name = which.split(":")[1]
+            rc = 2
+            for nm, fa, va, fb, vb in LAYOUT_PAIRS:
+                if nm != name:
+                    continue
+                rc = 0
+                for fields, vals in ((fa, va), (fb, vb), (fa, va)):
+                    rec = RecordDescriptor(name, fields)(_generated=TS, **vals)
+                    cur = dict(which="layout:%s:%s" % (name, ",".join("%s %s" % f for f in fields)), vals=vals, fields=fields, rec=rec, coq=None)
+                    oi, oc, op, orf, os_ = run_pair(text, tree, cur, {})
+                    print("replay %s on %s: interpreted=%r compiled=%r python=%r" % (text, fmt_vals(cur), truth_of(oi), truth_of(oc), truth_of(op)))
+                    if cur["which"] == which and op[0] == "val" and os_[0] == "val":
+                        o = oi if obj.get("engine") == "interpreted" else oc
+                        if truth_of(o) != truth_of(op):
+                            rc = 1
+            return rc
+        else:
+            r = build_record(which, obj["record"]["vals"])
         outs = run_pair(text, tree, r, {})
         if outs is None:
             print("replay: the pair is outside what the harness runs (huge intermediate value)")
